@@ -177,11 +177,76 @@ def c14_2(ctx):
     ctx.check(ok, "merkle-check-forwarded", ctx.where(pr), "Block.parse does not forward check_merkle_hash to set_txs")
 
 
+def _flag_bits_table(ctx, f):
+    """BIP37: after the traversal has consumed k flag bits the proof is acceptable only if it carries exactly ceil(k / 8) flag
+    bytes and the bits of the last byte beyond the k-th are zero.  Decision table: the guards of the verifier evaluated (abstract
+    interpreter, finite domain) for k = 1..24, 1..4 flag bytes and every value of the last byte."""
+    import copy
+    from sa.interp import Frame, Unknown, PyRaise
+    it_ = ctx.interp
+    mv = it_.module(f.module.name)
+    dp = f.params()[0]
+    flags_text = "%s['flags']" % dp
+    if ctx.tier == "thorough":
+        dom = [(k, nf, b) for k in range(1, 25) for nf in range(1, 5) for b in range(256)]
+    else:       # the byte boundaries (8 | 9, 16 | 17) and, for the last byte, nothing / every single bit / runs from either end
+        dom = [(k, nf, b) for k in range(1, 18) for nf in range(1, 4) for b in (0, 1, 2, 3, 4, 8, 16, 32, 64, 127, 128, 129, 254, 255)]
+
+    class S(ast.NodeTransformer):
+        def __init__(s_, v):
+            s_.v = v
+            s_.hit = False
+
+        def visit_Call(s_, n):
+            if norm(n.func).endswith("_recurse"):
+                return n            # what the traversal returns is not evaluated: only its bit count is a subject
+            return s_.generic_visit(n)
+
+        def visit_Subscript(s_, n):
+            if isinstance(n.value, ast.Call) and norm(n.value.func).endswith("_recurse") and isinstance(n.slice, ast.Constant) and n.slice.value == 1:
+                s_.hit = True
+                return ast.copy_location(ast.Constant(s_.v[0]), n)
+            if norm(n) == flags_text:
+                s_.hit = True
+                return ast.copy_location(ast.Constant(bytes(s_.v[1] - 1) + bytes([s_.v[2]])), n)
+            return s_.generic_visit(n)
+
+    def evalf(expr, v):
+        tr = S(v)
+        e2 = tr.visit(copy.deepcopy(expr))
+        if not tr.hit:
+            raise ValueError("not about the flags")
+        ast.fix_missing_locations(e2)
+        try:
+            val = it_.eval(e2, Frame(mv, None, {}))
+        except PyRaise:
+            undefined.add(v)        # the guard itself fails there (index out of range): the proof is not accepted, whichever way the test reads
+            return False
+        if isinstance(val, Unknown):
+            raise ValueError("unknown")
+        return bool(val)
+    undefined = set()
+    leaf = sym.finite_leaf(dom, evalf)
+    w = sym.walk(ctx, f, leaf, feasible=lambda r: True)
+    fr = sym.exits_formula(w, lambda e: e.kind == "return")
+    if fr is False:
+        raise Undecided("post_unpack_merkleblock has no returning exit")
+    if not any(isinstance(r, tuple) and r[0] == "set" for r in leaf.cache.values()):
+        raise Undecided("post_unpack_merkleblock: no guard was decided by (bits consumed, flag bytes, last byte); this rule does not read how the flags are checked")
+    acc = set(sym.may_set(fr, leaf.univ, leaf.empty).m) - undefined
+    want = {(k, nf, b) for (k, nf, b) in dom if (k + 7) // 8 == nf and (b >> ((k - 1) % 8 + 1)) == 0}
+    extra, lost = sorted(acc - want), sorted(want - acc)
+    ctx.check(acc == want, "flag-bits-table", ctx.where(f),
+              "post_unpack_merkleblock accepts (bits consumed, flag bytes, last byte) such as %s and refuses such as %s; BIP37: exactly ceil(bits / 8) flag bytes, padding bits zero"
+              % (extra[:3], lost[:3]), sample={"domain": len(dom), "accepted": len(acc), "expected": len(want)})
+
+
 # ------------------------------------------------------------------ C14.3
 def c14_3(ctx):
     f = ctx.func(MPP, "post_unpack_merkleblock")
     _refcheck(ctx, MPP, "post_unpack_merkleblock", "mpp_post_unpack_merkleblock", "proof-verifier")
     _refcheck(ctx, MPP, "_recurse", "mpp_recurse", "traversal")
+    _flag_bits_table(ctx, f)
     m = ctx.func(MPP, "standard_message_post_unpacks")
     w = sym.walk(ctx, m)
     rets = [e for e in w.exits if e.kind == "return" and isinstance(e.value, ast.Dict)]
